@@ -32,6 +32,7 @@ type HarnessSpec struct {
 	ReplayTags  string
 	ReplayEnv   []string
 	PanicIsViolation bool
+	ModelOnlyLabels  map[string]string // assertion label -> why its counterexamples cannot be realised by the native harness
 }
 
 type Options struct {
